@@ -942,7 +942,7 @@ def strspan_cases(ctx, res):
                 else:
                     got = gen.parse(io[-1])
                     if got != [('S', w) for w in want]:
-                        f = f'strings read back {io[-1]}, pushed {[bytes(w).decode("utf-8") for w in want]} after a prefix of {q[0] if q and q[0][0] == "g" else "0"} bytes'
+                        f = f'strings read back {io[-1]}, pushed {[bytes(w).decode("utf-8") for w in want]} (history {";".join(q)}; g<N> = virtual prefix of N bytes)'
             if f:
                 res.failures.append({'kind': 'oracle', 'entry': 'strspan/' + k,
                                      'rust_type': 'string region over OwnedRegion<u8, Sparse> (user-defined storage, harness/src/strspan.rs)',
